@@ -504,6 +504,10 @@ func exprAsConsumedByAssignment(rootNode *RootAssertionNode, expr ast.Node) *ann
 // not `ast.Expr`, and various "deep" assignments such as to an index of an object
 // nilable(result 0)
 func exprAsAssignmentConsumer(rootNode *RootAssertionNode, expr ast.Node, exprRHS ast.Node) (annotation.ConsumingAnnotationTrigger, error) {
+	// The target of an assignment can be parenthesized (e.g., `(g) = nil`), which gofmt keeps.
+	if e, ok := expr.(ast.Expr); ok {
+		expr = ast.Unparen(e)
+	}
 	if expr, ok := expr.(ast.Expr); ok && asthelper.IsEmptyExpr(expr) {
 		return nil, nil
 	}
